@@ -211,37 +211,50 @@ Proof.
   destruct (closed_const e); cbn [snd map g_name]; constructor; auto.
 Qed.
 
-Lemma trm_fresh top D ps g : In g (snd (trm top D ps)) -> tmem (g_name g) (map fst D) = false.
-Proof. destruct top; cbn; [apply trt_fresh|intros []]. Qed.
+Lemma trm_fresh top lm D ps g : In g (snd (trm top lm D ps)) -> tmem (g_name g) (map fst D) = false.
+Proof. destruct top, lm; cbn; try (intros []); apply trt_fresh. Qed.
 
-Lemma trm_nil top D : trm top D [] = ([], []).
-Proof. destruct top; reflexivity. Qed.
+Lemma trm_nil top lm D : trm top lm D [] = ([], []).
+Proof. destruct top, lm; reflexivity. Qed.
 
-Lemma trm_cons_old top D x e rest t : tlookup x D = Some t ->
-  trm top D (PAssign x e :: rest) = (tr1 (PAssign x e) ++ fst (trm top D rest), snd (trm top D rest)).
+Lemma trm_cons_old top lm D x e rest t : tlookup x D = Some t ->
+  trm top lm D (PAssign x e :: rest) = (tr1 (PAssign x e) ++ fst (trm top lm D rest), snd (trm top lm D rest)).
 Proof.
-  intro H. destruct top; [|reflexivity]. unfold trm. cbn [trt].
-  match goal with |- context [tmem x ?l] => replace (tmem x l) with true by (symmetry; eapply tlookup_dom_true; eauto) end.
-  reflexivity.
+  intro H. destruct top; [|reflexivity]. destruct lm; unfold trm; cbn [trt trl];
+    match goal with |- context [tmem x ?l] => replace (tmem x l) with true by (symmetry; eapply tlookup_dom_true; eauto) end;
+    reflexivity.
 Qed.
 
 Lemma trm_cons_new D x e rest : tlookup x D = None ->
-  trm true D (PAssign x e :: rest) =
+  trm true false D (PAssign x e :: rest) =
   if closed_const e
-  then (fst (trm true (D ++ [(x, a_ty e)]) rest),
-        {| g_name := x; g_ty := a_ty e; g_init := XE (a_id e) |} :: snd (trm true (D ++ [(x, a_ty e)]) rest))
-  else (NAssign x (XE (a_id e)) :: fst (trm true (D ++ [(x, a_ty e)]) rest),
-        {| g_name := x; g_ty := a_ty e; g_init := XDefault (a_ty e) |} :: snd (trm true (D ++ [(x, a_ty e)]) rest)).
+  then (fst (trm true false (D ++ [(x, a_ty e)]) rest),
+        {| g_name := x; g_ty := a_ty e; g_init := XE (a_id e) |} :: snd (trm true false (D ++ [(x, a_ty e)]) rest))
+  else (NAssign x (XE (a_id e)) :: fst (trm true false (D ++ [(x, a_ty e)]) rest),
+        {| g_name := x; g_ty := a_ty e; g_init := XDefault (a_ty e) |} :: snd (trm true false (D ++ [(x, a_ty e)]) rest)).
 Proof.
   intro H. unfold trm. cbn [trt].
   match goal with |- context [tmem x ?l] => replace (tmem x l) with false by (symmetry; eapply tlookup_dom_false; eauto) end.
   rewrite map_app. reflexivity.
 Qed.
 
-Lemma trm_cons_other top D p rest :
+Lemma trm_cons_newl D x e rest : tlookup x D = None ->
+  trm true true D (PAssign x e :: rest) =
+  (NDecl x (a_ty e) (XE (a_id e)) false :: fst (trm true true (D ++ [(x, a_ty e)]) rest),
+   snd (trm true true (D ++ [(x, a_ty e)]) rest)).
+Proof.
+  intro H. unfold trm. cbn [trl fst snd].
+  match goal with |- context [tmem x ?l] => replace (tmem x l) with false by (symmetry; eapply tlookup_dom_false; eauto) end.
+  rewrite map_app. reflexivity.
+Qed.
+
+Lemma trm_cons_other top lm D p rest :
   match p with PAssign _ _ => False | _ => True end ->
-  trm top D (p :: rest) = (tr1 p ++ fst (trm top D rest), snd (trm top D rest)).
-Proof. intro H. destruct top; destruct p; try reflexivity; destruct H. Qed.
+  trm top lm D (p :: rest) = (tr1 p ++ fst (trm top lm D rest), snd (trm top lm D rest)).
+Proof. intro H. destruct top, lm; destruct p; try reflexivity; destruct H. Qed.
+
+Lemma trm_local_snd D ps : snd (trm true true D ps) = [].
+Proof. reflexivity. Qed.
 
 Lemma closed_const_fv e : closed_const e = true -> a_fv e = [].
 Proof. unfold closed_const. destruct (a_const e); [|discriminate]. destruct (a_fv e); [reflexivity|discriminate]. Qed.
@@ -351,4 +364,31 @@ Proof.
   - inversion HN as [|? ? Hni HN']; subst. cbn. destruct (text_eqb k k0) eqn:Ek.
     + apply text_eqb_eq in Ek. subst k0. exfalso. apply Hni. apply in_map_iff. exists (k, v). auto.
     + apply IH; assumption.
+Qed.
+
+Lemma Rel_drop D D1 L rho (sg : StmtSem.cstore) q :
+  Rel D1 L rho (q :: sg) -> ext D D1 -> tmem (fst q) (map fst D) = false -> tmem (fst q) L = false ->
+  Rel D L rho sg.
+Proof.
+  intros [R1 R2] HE HD HL. destruct q as [x b]. cbn [fst] in *. split.
+  - intros y t Hl. assert (Hn : y <> x).
+    { intros ->. apply tlookup_dom_true in Hl. exact (bool_contra _ Hl HD). }
+    destruct (R1 _ _ (HE _ _ Hl)) as (u & P1 & P2 & P3). exists u.
+    cbn [tlookup] in P3. apply text_eqb_neq in Hn. rewrite Hn in P3. auto.
+  - intros y Hm. assert (Hn : y <> x) by (intros ->; congruence).
+    destruct (R2 _ Hm) as (j & P1 & P2). exists j.
+    cbn [tlookup] in P2. apply text_eqb_neq in Hn. rewrite Hn in P2. auto.
+Qed.
+
+Lemma Fr_cons_inv' N p (a b : SimStoreP.cstore) :
+  Fr N (p :: a) b -> exists q b', b = q :: b' /\ fst q = fst p /\ Fr N a b'.
+Proof.
+  intro H. inversion H as [|? q ? b' (E1 & E2 & E3) Hr]; subst. exists q, b'. auto.
+Qed.
+
+Lemma lastn_app_r {A} n (l1 l2 : list A) : length l2 = n -> lastn n (l1 ++ l2) = l2.
+Proof.
+  intro H. unfold lastn. rewrite app_length, H.
+  replace (length l1 + n - n)%nat with (length l1) by lia.
+  induction l1 as [|x l1 IH]; cbn; [reflexivity|exact IH].
 Qed.
